@@ -18,8 +18,17 @@ Definition TS_ERROR : N := 3.
 
 (* One roster entry.  [t_owner] is the environment of the parent role (None = parent nil = unlocked);
    [t_active] is status ACTIVE (a TASK_RUNNING update was processed and no terminal update since). *)
+(* A task is named by the environment it was launched for and the number of the role it was
+   launched for (the harness maps the core's task ids to these names through the launch records of
+   the simulated master).  Environment ids are unique (uid.New()). *)
+Definition tid := (N * N)%type.
+Definition tid_eqb (a b : tid) : bool := N.eqb (fst a) (fst b) && N.eqb (snd a) (snd b).
+Definition mem_tid (k : tid) (l : list tid) : bool := existsb (tid_eqb k) l.
+Definition tid_leb (a b : tid) : bool :=
+  N.ltb (fst a) (fst b) || (N.eqb (fst a) (fst b) && N.leb (snd a) (snd b)).
+
 Record task := mkTask {
-  t_id : N;
+  t_id : tid;
   t_owner : option N;
   t_active : bool;
   t_state : N
@@ -41,20 +50,20 @@ Definition set_dead (t : task) : task :=
   mkTask (t_id t) (t_owner t) false (if is_locked t then TS_ERROR else t_state t).
 
 Definition task_eqb (a b : task) : bool :=
-  N.eqb (t_id a) (t_id b) && option_eqb N.eqb (t_owner a) (t_owner b) &&
+  tid_eqb (t_id a) (t_id b) && option_eqb N.eqb (t_owner a) (t_owner b) &&
   Bool.eqb (t_active a) (t_active b) && N.eqb (t_state a) (t_state b).
 
-Definition find_task (id : N) (r : roster) : option task :=
-  find (fun t => N.eqb (t_id t) id) r.
+Definition find_task (id : tid) (r : roster) : option task :=
+  find (fun t => tid_eqb (t_id t) id) r.
 
 (* ---- releaseTasks(envId, tasks): per task, refuse if locked by another environment, else unlock.
    Result: new roster and the number of refusals (taskReleaseErrors). *)
-Fixpoint release (e : N) (ids : list N) (r : roster) : roster * N :=
+Fixpoint release (e : N) (ids : list tid) (r : roster) : roster * N :=
   match r with
   | [] => ([], 0)
   | t :: r' =>
       let '(r'', n) := release e ids r' in
-      if memN (t_id t) ids then
+      if mem_tid (t_id t) ids then
         match t_owner t with
         | Some o => if N.eqb o e then (set_owner None t :: r'', n) else (t :: r'', n + 1)
         | None => (t :: r'', n)
@@ -64,18 +73,18 @@ Fixpoint release (e : N) (ids : list N) (r : roster) : roster * N :=
 
 (* ---- KillTasks(ids): the tasks of the roster that are unlocked and listed are removed from the
    roster; a KILL call goes out for those of them that are ACTIVE.  Result: roster, KILLed ids. *)
-Fixpoint kill_tasks (ids : list N) (r : roster) : roster * list N :=
+Fixpoint kill_tasks (ids : list tid) (r : roster) : roster * list tid :=
   match r with
   | [] => ([], [])
   | t :: r' =>
       let '(r'', k) := kill_tasks ids r' in
-      if memN (t_id t) ids && negb (is_locked t)
+      if mem_tid (t_id t) ids && negb (is_locked t)
       then (r'', if t_active t then t_id t :: k else k)
       else (t :: r'', k)
   end.
 
 (* ---- Cleanup(): the same for every unlocked task of the roster. *)
-Fixpoint cleanup (r : roster) : roster * list N :=
+Fixpoint cleanup (r : roster) : roster * list tid :=
   match r with
   | [] => ([], [])
   | t :: r' =>
@@ -88,22 +97,22 @@ Fixpoint cleanup (r : roster) : roster * list N :=
 (* ---- a transition command for environment [e] addressed to [targets]: the targets that
    acknowledge go to [dst]; those listed in [refuse] answer with an error and keep their state.
    Only tasks that [e] owns can be in its workflow's task list, hence the owner test. *)
-Definition command (e : N) (targets : list N) (refuse : list N) (dst : N) (r : roster) : roster :=
+Definition command (e : N) (targets : list tid) (refuse : list tid) (dst : N) (r : roster) : roster :=
   map (fun t =>
-         if owner_is e t && memN (t_id t) targets && negb (memN (t_id t) refuse)
+         if owner_is e t && mem_tid (t_id t) targets && negb (mem_tid (t_id t) refuse)
          then set_state dst t else t) r.
 
 (* ---- a terminal status update (TASK_FAILED ...) for one task: status INACTIVE; state ERROR if it
    is locked (handleMessage: t.IsLocked() -> updateTaskState ERROR). *)
-Definition task_dies (id : N) (r : roster) : roster :=
-  map (fun t => if N.eqb (t_id t) id then set_dead t else t) r.
+Definition task_dies (id : tid) (r : roster) : roster :=
+  map (fun t => if tid_eqb (t_id t) id then set_dead t else t) r.
 
 (* ids of the tasks a given environment owns *)
-Definition owned_ids (e : N) (r : roster) : list N :=
+Definition owned_ids (e : N) (r : roster) : list tid :=
   map t_id (filter (owner_is e) r).
 
-Definition active_owned_in (e : N) (ids : list N) (r : roster) : list N :=
-  map t_id (filter (fun t => owner_is e t && t_active t && memN (t_id t) ids) r).
+Definition active_owned_in (e : N) (ids : list tid) (r : roster) : list tid :=
+  map t_id (filter (fun t => owner_is e t && t_active t && mem_tid (t_id t) ids) r).
 
 (* insertion sort on N keys, used for canonical observations only *)
 Fixpoint insN (x : N) (l : list N) : list N :=
@@ -122,9 +131,16 @@ Fixpoint dedupN (l : list N) : list N :=   (* on a sorted list *)
               end
   end.
 
+Fixpoint ins_tid (x : tid) (l : list tid) : list tid :=
+  match l with
+  | [] => [x]
+  | y :: r => if tid_leb x y then x :: l else y :: ins_tid x r
+  end.
+Definition sort_tids (l : list tid) : list tid := fold_right ins_tid [] l.
+
 Fixpoint ins_task (x : task) (l : roster) : roster :=
   match l with
   | [] => [x]
-  | y :: r => if N.leb (t_id x) (t_id y) then x :: l else y :: ins_task x r
+  | y :: r => if tid_leb (t_id x) (t_id y) then x :: l else y :: ins_task x r
   end.
 Definition sort_roster (l : roster) : roster := fold_right ins_task [] l.
